@@ -31,6 +31,7 @@ pub struct X {
     pub senders_alive: Map<int, bool>,    // channel -> some sender handle still exists
     pub receiver_alive: Map<int, bool>,   // channel -> the receiver still exists
     pub waits: Seq<(int, Option<Duration>)>,   // blocking / timed receives issued: (channel, timeout)
+    pub moved_out: Set<int>,              // channels whose receiver has been moved out of the handle it was created in (consume)
 }
 pub open spec fn msg_of(m: ChannelMessage) -> Msg { Msg { data: m.0@, channels: m.1@, regions: m.2@ } }
 
@@ -41,7 +42,7 @@ impl Receiver<ChannelMessage> {
         requires old(x).q.contains_key(self.chan),
         ensures
             final(x).senders_alive == old(x).senders_alive, final(x).receiver_alive == old(x).receiver_alive,
-            final(x).waits == old(x).waits.push((self.chan, None)),
+            final(x).waits == old(x).waits.push((self.chan, None)), final(x).moved_out == old(x).moved_out,
             r matches Ok(m) ==> old(x).q[self.chan].len() > 0 && msg_of(m) == old(x).q[self.chan][0]
                 && final(x).q == old(x).q.insert(self.chan, old(x).q[self.chan].subrange(1, old(x).q[self.chan].len() as int)),
             r is Err ==> old(x).q[self.chan].len() == 0 && !old(x).senders_alive[self.chan] && final(x).q == old(x).q,
@@ -50,7 +51,7 @@ impl Receiver<ChannelMessage> {
     pub fn try_recv(&self, Tracked(x): Tracked<&mut X>) -> (r: Result<ChannelMessage, TryRecvError>)
         requires old(x).q.contains_key(self.chan),
         ensures
-            final(x).senders_alive == old(x).senders_alive, final(x).receiver_alive == old(x).receiver_alive, final(x).waits == old(x).waits,
+            final(x).senders_alive == old(x).senders_alive, final(x).receiver_alive == old(x).receiver_alive, final(x).waits == old(x).waits, final(x).moved_out == old(x).moved_out,
             r matches Ok(m) ==> old(x).q[self.chan].len() > 0 && msg_of(m) == old(x).q[self.chan][0]
                 && final(x).q == old(x).q.insert(self.chan, old(x).q[self.chan].subrange(1, old(x).q[self.chan].len() as int)),
             r matches Err(e) ==> old(x).q[self.chan].len() == 0 && final(x).q == old(x).q && ((e is Disconnected) <==> !old(x).senders_alive[self.chan]),
@@ -60,7 +61,7 @@ impl Receiver<ChannelMessage> {
         requires old(x).q.contains_key(self.chan),
         ensures
             final(x).senders_alive == old(x).senders_alive, final(x).receiver_alive == old(x).receiver_alive,
-            final(x).waits == old(x).waits.push((self.chan, Some(timeout))),
+            final(x).waits == old(x).waits.push((self.chan, Some(timeout))), final(x).moved_out == old(x).moved_out,
             r matches Ok(m) ==> old(x).q[self.chan].len() > 0 && msg_of(m) == old(x).q[self.chan][0]
                 && final(x).q == old(x).q.insert(self.chan, old(x).q[self.chan].subrange(1, old(x).q[self.chan].len() as int)),
             r matches Err(e) ==> old(x).q[self.chan].len() == 0 && final(x).q == old(x).q && ((e is Disconnected) <==> !old(x).senders_alive[self.chan]),
@@ -72,7 +73,7 @@ impl Sender<ChannelMessage> {
     pub fn send(&self, m: ChannelMessage, Tracked(x): Tracked<&mut X>) -> (r: Result<(), SendError>)
         requires old(x).q.contains_key(self.chan),
         ensures
-            final(x).senders_alive == old(x).senders_alive, final(x).receiver_alive == old(x).receiver_alive, final(x).waits == old(x).waits,
+            final(x).senders_alive == old(x).senders_alive, final(x).receiver_alive == old(x).receiver_alive, final(x).waits == old(x).waits, final(x).moved_out == old(x).moved_out,
             (r is Ok) <==> old(x).receiver_alive[self.chan],
             r is Ok ==> final(x).q == old(x).q.insert(self.chan, old(x).q[self.chan].push(msg_of(m))),
             r is Err ==> final(x).q == old(x).q,
@@ -127,9 +128,23 @@ impl RangeFromU64 {
 }
 pub struct OsIpcReceiverSet { pub incrementor: RangeFromU64, pub receiver_ids: Vec<u64>, pub receivers: Vec<OsIpcReceiver> }
 impl OsIpcReceiver {
-    // consume(): moves the crossbeam receiver out through the RefCell (the source keeps None: not modelled, D40)
+    // consume() as seen by OsIpcReceiverSet::add (the function itself is under contract as `consume_impl` below)
     #[verifier::external_body]
     pub fn consume(&self) -> (r: OsIpcReceiver) ensures r.receiver.v == self.receiver.v { unimplemented!() }
+}
+// `cell.borrow_mut().take()` on a RefCell<Option<T>> (D48): the content moves to the caller and the cell is left empty.
+// The stand-in RefCell cannot change through `&self`; that the cell is now empty is recorded in the ghost world instead.
+#[verifier::external_body]
+pub fn refcell_take(cell: &RefCell<Option<Receiver<ChannelMessage>>>, Tracked(x): Tracked<&mut X>) -> (r: Option<Receiver<ChannelMessage>>)
+    ensures r == cell.v, final(x).q == old(x).q, final(x).senders_alive == old(x).senders_alive, final(x).receiver_alive == old(x).receiver_alive,
+            final(x).waits == old(x).waits,
+            cell.v matches Some(rx) ==> final(x).moved_out == old(x).moved_out.insert(rx.chan),
+            cell.v is None ==> final(x).moved_out == old(x).moved_out,
+{ unimplemented!() }
+impl Clone for Receiver<ChannelMessage> {
+    // crossbeam Receiver::clone: a second consumer of the same queue
+    #[verifier::external_body]
+    fn clone(&self) -> (r: Receiver<ChannelMessage>) ensures r.chan == self.chan { unimplemented!() }
 }
 
 // ---- one-shot server: the global registry ONE_SHOT_SERVERS (Mutex<HashMap<String, ServerRecord>>) ----
@@ -169,6 +184,6 @@ pub fn fresh_server_name(reg: &ServerMap) -> (r: String) ensures !reg.m.contains
 #[verifier::external_body]
 pub fn channel(Tracked(x): Tracked<&mut X>) -> (r: Result<(OsIpcSender, OsIpcReceiver), ChannelError>)
     ensures r matches Ok((tx, rx)) ==> rx.receiver.v is Some && tx.sender.v.chan == rx.receiver.v->0.chan && !old(x).q.contains_key(tx.sender.v.chan)
-                && final(x).q == old(x).q.insert(tx.sender.v.chan, Seq::<Msg>::empty()) && final(x).waits == old(x).waits,
+                && final(x).q == old(x).q.insert(tx.sender.v.chan, Seq::<Msg>::empty()) && final(x).waits == old(x).waits && final(x).moved_out == old(x).moved_out,
             r is Err ==> *final(x) == *old(x),
 { unimplemented!() }
